@@ -2318,8 +2318,8 @@ class Recipe:
         if not name:
             name = f"solution of {solute.name} in {solvent.name}"
 
-        new_ratio, numerator, denominator = Unit.calculate_concentration_ratio(solute, concentration, solvent)
-        if new_ratio <= 0:
+        # (whether the concentration can be reached depends on the source: that is decided when the step is carried out)
+        if Unit.parse_concentration(concentration)[0] < 0:
             raise ValueError("Solution is impossible to create.")
 
         new_container = Container(name, max_volume=f"{source.max_volume} {config.volume_storage_unit}")
